@@ -1123,12 +1123,17 @@ class PageElement(object):
             matcher = SoupStrainer(name, attrs, string, **kwargs)
 
         result: Iterable[_OneElement]
-        if string is None and not limit and not attrs and not kwargs:
+        if string is None and not attrs and not kwargs:
             if name is True or name is None:
-                # Optimization to find all tags.
-                result = (element for element in generator if isinstance(element, Tag))
+                # No criteria: find all tags, or the first `limit` of them.
+                result = []
+                for element in generator:
+                    if isinstance(element, Tag):
+                        result.append(element)
+                        if limit and len(result) >= limit:
+                            break
                 return ResultSet(matcher, result)
-            elif isinstance(name, str):
+            elif isinstance(name, str) and not limit:
                 # Optimization to find all tags with a given name.
                 if name.count(":") == 1:
                     # This is a name with a prefix. If this is a namespace-aware document,
